@@ -46,6 +46,10 @@ var Descriptions = map[string]string{
 	"d_tab":     "tab\tseparated\tand trailing spaces   ",
 }
 
+// IgnoredKeywords: keyword id -> JSON text of its value (spec units list them under "ignored").
+var IgnoredKeywords = map[string]string{"uniqueItems": "true", "readOnly": "true", "deprecated": "true", "$comment": `"a comment"`,
+	"examples": `[1, "two"]`, "minProperties": "0", "contentEncoding": `"base64"`}
+
 // FormatText holds the canonical string of each format (JV "fmt" documents).
 var FormatText = map[string]string{"date": "2006-01-02", "time": "15:04:05", "date-time": "2006-01-02T15:04:05Z",
 	"ipv4": "192.0.2.1", "ipv6": "2001:db8::1"}
@@ -265,6 +269,15 @@ func Schema(v any, ren RefRename) (string, error) {
 				return "", fmt.Errorf("unknown pattern id %v", val)
 			}
 			add(k, quote(p))
+		case "ignored": // keywords the tool parses but gives no meaning (the documents of the unit satisfy them anyway)
+			l, _ := val.([]any)
+			for _, x := range l {
+				t, ok := IgnoredKeywords[str(x)]
+				if !ok {
+					return "", fmt.Errorf("unknown ignored-keyword id %v", x)
+				}
+				add(str(x), t)
+			}
 		case "format":
 			add(k, quote(str(val)))
 		case "title", "description":
